@@ -183,7 +183,7 @@ func evalNum(c CaseNum) Result {
 		} else {
 			classes = append(classes, "q:invalid")
 		}
-	case "port_hostport", "port_userhost", "port_params", "port_hdrs", "port_hostport_params":
+	case "port_hostport", "port_userhost", "port_params", "port_hdrs", "port_hostport_params", "port_digitpass", "port_digitpass6":
 		var uri string
 		switch c.Pos {
 		case "port_hostport":
@@ -194,6 +194,10 @@ func evalNum(c CaseNum) Result {
 			uri = "sips:u:p@1.2.3.4:" + string(d) + ";transport=tcp"
 		case "port_hdrs":
 			uri = "sip:[::1]:" + string(d) + "?a=b"
+		case "port_digitpass": // password that starts with digits: they must not leak into the port
+			uri = "sip:bob:4you@h.example:" + string(d)
+		case "port_digitpass6":
+			uri = "sips:bob:65x@[::1]:" + string(d) + ";lr"
 		default:
 			uri = "sip:host:" + string(d) + ";lr"
 		}
@@ -216,7 +220,7 @@ func evalNum(c CaseNum) Result {
 	return ok(nt, classes...)
 }
 
-var numPositions = []string{"cseq", "clen", "clen_msg", "expires", "expires_msg", "ctexp", "q", "port_hostport", "port_userhost", "port_params", "port_hdrs", "port_hostport_params"}
+var numPositions = []string{"cseq", "clen", "clen_msg", "expires", "expires_msg", "ctexp", "q", "port_hostport", "port_userhost", "port_params", "port_hdrs", "port_hostport_params", "port_digitpass", "port_digitpass6"}
 
 var C10Num = Register(&Check[CaseNum]{
 	Prop: "C10", Name: "C10.num",
